@@ -249,6 +249,16 @@ def slist_method(eng, bm, obj, name, args, kwargs, node):
         new = SList(obj.t, obj.n - 1, [z3.Lambda([k], z3.If(k < j, c[k], c[k + 1])) for c in obj.comps])
         _wb(eng, bm, new)
         return None
+    if name == "index" and len(args) == 1 and len(obj.comps) == 1:
+        # first position holding the value (ValueError if there is none)
+        x = args[0]
+        present = ops.contains(obj, x)
+        eng.may_raise("ValueError", b_not(present), node, "list.index(x): x not in list")
+        j = eng.fresh("index_of", TInt)
+        i = z3.FreshConst(z3.IntSort(), "i")
+        eng.assume(z3.And(0 <= j, j < obj.n, B(values_equal(slist_get(obj, j), x))))
+        eng.assume(z3.ForAll([i], z3.Implies(z3.And(0 <= i, i < j), z3.Not(B(values_equal(slist_get(obj, i), x))))))
+        return j
     if name == "pop" and not args:
         eng.may_raise("IndexError", obj.n == 0, node, "pop from empty list")
         v = slist_get(obj, obj.n - 1)
